@@ -11,7 +11,7 @@ import random
 import subprocess
 import time
 
-from simlib import bootstrap, dsgen, eread
+from simlib import bootstrap, dsgen, eread, fslayer
 from simlib.props import c02
 
 ID = "C15"
@@ -87,8 +87,10 @@ def gen_case(rng, tier, index):
     return {"kind": "e2e", "hist": hist,
             "op": rng.choice(["sequence", "sequence", "shuffled", "two_iters",
                               "two_iters", "abandon", "abandon",
-                              "two_threads", "damaged"] +
+                              "two_threads", "damaged", "drop_one"] +
                              (["slow_consumer"] if rng.random() < 0.35
+                              else []) +
+                             (["slow_shard"] if rng.random() < 0.3
                               else [])),
             "pause": 2.5 if tier == "quick" else rng.choice([2.5, 6.0]),
             "fp_sel": rng.choice([1, 2, 3, "s", "s+2", "s-1", 9]),
@@ -235,6 +237,63 @@ def run_e2e(case):
                     if k == 0:
                         time.sleep(case.get("pause", 2.5))
                 return ("slow_consumer", got == ref, [i for i, _ in got][:12],
+                        [i for i, _ in ref][:12])
+            if op == "drop_one":
+                # two native iterators alive; the second is dropped early,
+                # several times over, while the first is in the middle of its
+                # pass: the first must not notice
+                b = splits[-1]
+                ita = iter(ds.as_numpy_iterator_rust(
+                    split=a, repeat=False, shuffle=0, file_parallelism=fp))
+                got = []
+                for round_ in range(3):
+                    itb = iter(ds.as_numpy_iterator_rust(
+                        split=b, repeat=True, shuffle=0,
+                        file_parallelism=max(1, fp - round_)))
+                    for _ in range(1 + (case["p"] + round_) % 4):
+                        next(itb)
+                    got.extend(ids(ita, 1 + round_))
+                    itb.close()
+                    del itb
+                    got.extend(ids(ita, 2))
+                got.extend(ids(ita))
+                return ("drop_one", got == ref, [i for i, _ in got][:12],
+                        [i for i, _ in ref][:12])
+            if op == "slow_shard":
+                # clocks inside the extension cannot be virtualised: one shard
+                # really takes 6.5 s to load (a FIFO fed late), the consumer
+                # waits for it
+                victim = os.path.join(env.root, table[
+                    case["p"] % len(table)]["path"])
+                with fslayer.real_open(victim, "rb") as f:
+                    content = f.read()
+                os.unlink(victim)
+                os.mkfifo(victim)
+                # (fed by another process: the consumer holds the GIL while it
+                # waits inside the extension, a Python thread would never run)
+                feeder = os.fork()
+                if feeder == 0:
+                    try:
+                        from simlib.runner import die_with_parent
+                        die_with_parent()
+                        time.sleep(6.5)
+                        fd = os.open(victim, os.O_WRONLY)
+                        view = memoryview(content)
+                        while view:
+                            view = view[os.write(fd, view):]
+                        os.close(fd)
+                    finally:
+                        os._exit(0)
+                try:
+                    got = ids(ds.as_numpy_iterator_rust(
+                        split=a, repeat=False, shuffle=0,
+                        file_parallelism=fp))
+                finally:
+                    try:
+                        os.waitpid(feeder, 0)
+                    except OSError:
+                        pass
+                return ("slow_shard", got == ref, [i for i, _ in got][:12],
                         [i for i, _ in ref][:12])
             if op == "two_threads":
                 # two Python threads, each driving its own native iterator
@@ -388,7 +447,8 @@ def reach(agg):
                  "threads_above_tasks", "threads_equal_tasks", "empty_input",
                  "e2e_sequence", "e2e_shuffled", "e2e_two_iters",
                  "e2e_abandon", "e2e_slow_consumer", "big_endian_declared",
-                 "e2e_two_threads", "e2e_damaged", "compression_LZ4", "compression_GZIP",
+                 "e2e_two_threads", "e2e_damaged", "e2e_drop_one",
+                 "e2e_slow_shard", "compression_LZ4", "compression_GZIP",
                  "compression_ZLIB", "compression_none"):
         if not p.get(name):
             need.append(f"probe {name} never hit")
